@@ -1,4 +1,5 @@
 import GeosModel.Proofs.Norm.Area
+import GeosModel.Proofs.Norm.Length
 import GeosModel.Proofs.Construct.Check
 import GeosModel.Model.Norm.Orientation
 /-!
@@ -180,6 +181,14 @@ theorem area_reverse (f : Coord → Pt) (g : G) : absArea2 f (reverse g) = absAr
 /-- … and by `normalize`, for rings closed in the coordinates `f` reads, under the idempotence hypothesis -/
 theorem area_normalize_partial (f : Coord → Pt) (c : Cfg) (g : G) (hc : ringsClosed f g) (h : idemOK c g = true) :
     absArea2 f (normalize c g) = absArea2 f g := absArea2_normalize_aux f c g hc h
+
+/-- the multiset of squared segment lengths of the linework (lines and polygon rings) — and with it the length, a
+symmetric function of the segment lengths — is kept by `reverse` -/
+theorem length_reverse (f : Coord → Pt) (g : G) : (segSqs f (reverse g)).Perm (segSqs f g) := segSqs_reverse_aux f g
+
+/-- … and by `normalize`, for rings / closed lines closed in the coordinates `f` reads, under the idempotence hypothesis -/
+theorem length_normalize_partial (f : Coord → Pt) (c : Cfg) (g : G) (hc : closedOK f c g) (h : idemOK c g = true) :
+    (segSqs f (normalize c g)).Perm (segSqs f g) := segSqs_normalize_aux f c g hc h
 
 /-! ## 6. certificate checkers -/
 
